@@ -9,7 +9,7 @@ use super::CheckDef;
 use crate::bfs::Bfs;
 use crate::report::{CheckInfo, Partial, Tier, Violation};
 use crate::sim::{MIN, SEC};
-use crate::srv::{record_path, replay_path, src_addr, Act, Cas, Recorded, Sig, SrvCfg, SrvState, Tok, VetoFilter, SOURCES};
+use crate::srv::{replay_path, src_addr, Act, Cas, Sig, SrvCfg, SrvState, Tok, VetoFilter, SOURCES};
 
 fn base(name: &'static str, alphabet: Vec<Act>, props: &[&'static str]) -> SrvCfg {
     SrvCfg {
@@ -214,7 +214,15 @@ pub fn cfgs_c15() -> Vec<SrvCfg> {
         Act::Tick(4 * MIN + 59 * SEC),
         Act::Tick(2 * SEC),
     ];
-    vec![base("c15-tokens", a, p), base("c15-writes-only", b, p)]
+    // secret-free guesses, on a fresh server and after rotations
+    let mut c = vec![Act::Get { src: 0, target: 3, seq: None }];
+    for k in 0..5u8 {
+        c.push(Act::PutImm { src: 0, v: 0, tok: Tok::Guess(k) });
+    }
+    c.push(Act::PutImm { src: 2, v: 0, tok: Tok::Guess(0) });
+    c.push(Act::Announce { src: 3, ih: 0, port: 5, implied: None, tok: Tok::Guess(0) });
+    c.push(Act::Tick(5 * MIN + SEC));
+    vec![base("c15-tokens", a, p), base("c15-writes-only", b, p), base("c15-guesses", c, p)]
 }
 
 pub fn cfgs_c20() -> Vec<SrvCfg> {
@@ -267,14 +275,53 @@ pub fn cfgs_c20() -> Vec<SrvCfg> {
     v
 }
 
-/// Binding of the E2 search to the running system: the wire bytes of one explored history are
-/// replayed against a full threaded node (real actor loop, socket layer, `Core::handle_request`)
-/// on the simulated network, with the same scripted randomness and clock steps; the reply
-/// bodies must be byte-identical to what the `Server`-level search saw.
-pub fn e1_replay(cfg: &SrvCfg, path: &[u16]) -> Result<usize, String> {
+/// Binding of the E2 search to the running system: one explored history is run again with a
+/// full threaded node (real actor loop, socket layer, `Core::handle_request`) on the simulated
+/// network standing in for the `Server` clone - the same request builder, the same reference
+/// model and the same oracle (replies, stored state after every step, token verdicts), tokens
+/// taken from what the node itself issued, so nothing depends on the two sharing randomness.
+struct NodeRemote {
+    w: crate::sim::World,
+    n: usize,
+    node_addr: std::net::SocketAddrV4,
+}
+
+impl crate::srv::Remote for NodeRemote {
+    fn exchange(&mut self, from: std::net::SocketAddrV4, bytes: &[u8]) -> Result<Option<Vec<u8>>, String> {
+        use crate::sim::Event;
+        let mut got: Option<Vec<u8>> = None;
+        self.w.send_raw_with_latency(from, self.node_addr, bytes.to_vec(), 0);
+        let h = self.w.now + 2 * crate::sim::MS;
+        self.w.run_until(h, |_, ev| {
+            if let Event::EndpointRecv { dgram, .. } = ev {
+                if dgram.to == from {
+                    got = Some(dgram.bytes.clone());
+                    return true;
+                }
+            }
+            false
+        });
+        if self.w.nodes[self.n].exited.is_some() {
+            return Err("the node's actor thread died".into());
+        }
+        Ok(got)
+    }
+    fn snapshot(&mut self) -> dht::verif::ServerSnapshot {
+        self.w.snapshot(self.n).core.server
+    }
+    fn advance(&mut self, d: u64) {
+        let t = self.w.now + d;
+        self.w.advance_to(t);
+    }
+    fn now(&self) -> u64 {
+        self.w.now
+    }
+}
+
+/// Returns the oracle's findings for `path` executed against a full node.
+pub fn e1_replay(cfg: &SrvCfg, path: &[u16]) -> Partial {
     use crate::explore::Chooser;
-    use crate::sim::{Event, NodeCfg, World};
-    let rec = record_path(cfg.clone(), path);
+    use crate::sim::{NodeCfg, World};
     let mut w = World::new(Chooser::default_run());
     w.default_latency = 0;
     w.keep_log = false;
@@ -282,7 +329,6 @@ pub fn e1_replay(cfg: &SrvCfg, path: &[u16]) -> Result<usize, String> {
         w.add_endpoint(src_addr(i as u8));
     }
     let mut nc = NodeCfg::new([5, 5, 5, 5], 6881).server();
-    nc.rng_script = std::iter::once(rec.node_id.to_vec()).chain(rec.secrets.iter().map(|s| s.to_vec())).collect();
     let mut settings = dht::ServerSettings {
         max_info_hashes: cfg.cap_hashes,
         max_peers_per_info_hash: cfg.cap_peers,
@@ -296,48 +342,19 @@ pub fn e1_replay(cfg: &SrvCfg, path: &[u16]) -> Result<usize, String> {
     nc.server_settings = Some(settings);
     let n = w.add_node(nc);
     let node_addr = w.node_addr(n);
-    let mut compared = 0usize;
-    for (i, step) in rec.steps.iter().enumerate() {
-        match step {
-            Recorded::Tick(d) => {
-                let t = w.now + d;
-                w.advance_to(t);
-            }
-            Recorded::Exchange { from, request, reply } => {
-                let mut got: Option<Vec<u8>> = None;
-                w.send_raw_with_latency(*from, node_addr, request.clone(), 0);
-                let h = w.now + 2 * crate::sim::MS;
-                let from = *from;
-                w.run_until(h, |_, ev| {
-                    if let Event::EndpointRecv { dgram, .. } = ev {
-                        if dgram.to == from {
-                            got = Some(dgram.bytes.clone());
-                            return true;
-                        }
-                    }
-                    false
-                });
-                let body = |b: &Vec<u8>| -> Option<(Option<crate::bencode::B>, Option<crate::bencode::B>, Option<crate::bencode::B>, Option<crate::bencode::B>)> {
-                    let (t, _) = crate::bencode::decode(b).ok()?;
-                    Some((t.get("y").cloned(), t.get("r").cloned(), t.get("e").cloned(), t.get("t").cloned()))
-                };
-                let same = match (reply, &got) {
-                    (None, None) => true,
-                    (Some(a), Some(b)) => body(a).is_some() && body(a) == body(b),
-                    _ => false,
-                };
-                if !same {
-                    let show = |b: &Option<Vec<u8>>| b.as_ref().map(|b| String::from_utf8_lossy(b).chars().take(160).collect::<String>());
-                    return Err(format!("step {i}: the full node answered {:?}, the Server-level search saw {:?}", show(&got), show(reply)));
-                }
-                compared += 1;
-            }
-        }
-        if w.nodes[n].exited.is_some() {
-            return Err(format!("step {i}: the node's actor thread died"));
+    let prev = crate::srv::set_remote(Some(Box::new(NodeRemote { w, n, node_addr })));
+    assert!(prev.is_none(), "MACHINERY: nested remote backends");
+    let res = super::catch(|| crate::srv::replay_with_prime(cfg.clone(), path));
+    // dropping the backend drops its world
+    drop(crate::srv::set_remote(None));
+    match res {
+        Ok(out) => out,
+        Err(e) => {
+            let mut out = Partial::default();
+            out.violation("e1/replay-panicked".to_string(), format!("replaying the history against a full node panicked: {e}"), json!({"cfg": cfg.name, "path": path, "e1": true}));
+            out
         }
     }
-    Ok(compared)
 }
 
 /// Replay a selection of the discovered states' shortest paths through full nodes.
@@ -347,20 +364,13 @@ fn bind_paths(cfg: &SrvCfg, paths: &[Vec<u16>], budget: usize, prop: &'static st
         if !(p.len() <= 3 || i % stride == 0) {
             continue;
         }
-        match e1_replay(cfg, p) {
-            Ok(n) => {
-                out.add("e1_replays", 1);
-                out.add("e1_replies_compared", n as u64);
-            }
-            Err(e) => {
-                let st = SrvState::new(cfg.clone());
-                out.violation(
-                    format!("{prop}:e1-replay/reply-differs"),
-                    format!("history {:?} replayed through a full threaded node: {e}", st.trace(p)),
-                    json!({"cfg": cfg.name, "path": p, "e1": true}),
-                );
-                return;
-            }
+        let r = e1_replay(cfg, p);
+        out.add("e1_replays", 1);
+        out.add("e1_replies_compared", r.count("reads") + r.count("writes_accepted") + r.count("writes_rejected"));
+        if let Some(v) = r.violations.into_iter().next() {
+            let key = v.key.split_once(':').map(|(_, k)| k.to_string()).unwrap_or(v.key.clone());
+            out.violation(format!("{prop}:e1/{key}"), format!("[against a full threaded node] {}", v.desc), json!({"cfg": cfg.name, "path": p, "e1": true}));
+            return;
         }
     }
 }
@@ -426,7 +436,7 @@ fn replay_srv(v: &Value) -> Result<Option<Violation>, String> {
         .collect();
     let cfg = find_cfg(name).ok_or("unknown cfg")?;
     if v.get("e1").and_then(|e| e.as_bool()) == Some(true) {
-        return Ok(e1_replay(&cfg, &path).err().map(|e| Violation { key: "e1-replay/reply-differs".into(), desc: e, replay: v.clone() }));
+        return Ok(e1_replay(&cfg, &path).violations.into_iter().next().map(|x| Violation { key: format!("e1/{}", x.key), desc: x.desc, replay: v.clone() }));
     }
     let out = replay_path(cfg, &path);
     Ok(out.violations.into_iter().next())
